@@ -21,6 +21,9 @@ type fact struct {
 	Reads  []string `json:"reads"`
 	Writes []string `json:"writes"`
 	Calls  []string `json:"calls"` // methods of the same receiver that the body calls
+	// fields of the receiver that the body touches at a source position BEFORE its first recv.lock.Lock()/RLock() call (only for
+	// methods that take the lock themselves): an access the mutex does not cover although the method looks disciplined
+	PreLock []string `json:"prelock"`
 }
 
 func recvField(e ast.Expr, recv string) string {
@@ -68,6 +71,8 @@ func main() {
 			fa := fact{Type: p[1], Method: fd.Name.Name, Lock: "none"}
 			reads, writes := map[string]bool{}, map[string]bool{}
 			calls := map[string]bool{}
+			lockPos := token.NoPos
+			firstAccess := map[string]token.Pos{}
 			ast.Inspect(fd.Body, func(n ast.Node) bool {
 				switch x := n.(type) {
 				case *ast.CallExpr:
@@ -80,9 +85,15 @@ func main() {
 								switch sel.Sel.Name {
 								case "Lock":
 									fa.Lock = "w"
+									if lockPos == token.NoPos || x.Pos() < lockPos {
+										lockPos = x.Pos()
+									}
 								case "RLock":
 									if fa.Lock == "none" {
 										fa.Lock = "r"
+									}
+									if lockPos == token.NoPos || x.Pos() < lockPos {
+										lockPos = x.Pos()
 									}
 								}
 							}
@@ -106,6 +117,9 @@ func main() {
 				case *ast.SelectorExpr:
 					if rid, ok := x.X.(*ast.Ident); ok && rid.Name == recv {
 						reads[x.Sel.Name] = true
+						if p, ok := firstAccess[x.Sel.Name]; !ok || x.Pos() < p {
+							firstAccess[x.Sel.Name] = x.Pos()
+						}
 					}
 				}
 				return true
@@ -120,6 +134,14 @@ func main() {
 			}
 			for k := range calls {
 				fa.Calls = append(fa.Calls, k)
+			}
+			if lockPos != token.NoPos {
+				for k, p := range firstAccess {
+					if k != "lock" && p < lockPos && !calls[k] {
+						fa.PreLock = append(fa.PreLock, k)
+					}
+				}
+				sort.Strings(fa.PreLock)
 			}
 			sort.Strings(fa.Calls)
 			sort.Strings(fa.Reads)
